@@ -20,6 +20,20 @@ class InjectedFault(Exception):
   pass
 
 
+def _errno_fault(code):
+  # what the operating system really reports: an OSError carrying an errno (interrupted call, try again, disk full, I/O error,
+  # read-only file system, too many open files, permission denied)
+  import errno as _e
+
+  def make(msg):
+    return OSError(getattr(_e, code), '%s (%s)' % (msg, code))
+  return make
+
+
+for _code in ('EINTR', 'EAGAIN', 'ENOSPC', 'EIO', 'EROFS', 'EMFILE', 'EACCES'):
+  EXC[_code] = _errno_fault(_code)
+
+
 EXC['InjectedFault'] = InjectedFault
 
 
